@@ -814,3 +814,8 @@ def run(report, repo):
   from sa.rules import extra5  # pylint: disable=g-import-not-at-top
   report.guard(extra5.unset_options_do_not_override, report, repo, 'C05-R10')
   report.guard(extra5.thread_run_catches_exception_only, report, repo, 'C05-R11')
+  from sa.rules import extra5 as _e6  # pylint: disable=g-import-not-at-top
+  report.guard(_e6.always_fail_on_every_diagnosis, report, repo, 'C05-R12')
+  from sa.rules import extra5 as _e6c  # pylint: disable=g-import-not-at-top
+  from sa.rules import c12 as _c12x  # pylint: disable=g-import-not-at-top
+  report.guard(_c12x.r3_join_or_die, report, repo, rule='C05-R13')
